@@ -23,6 +23,16 @@ CLAIMED = {
             BASE_NOTE + " Token view of io assumed (abstraction of the byte-level contracts of C01). Trusted model of hmap.StringKeyLinkedMap/IntKeyLinkedMap (Put/Get/Keys/enumerators as an insertion-ordered dictionary, max == 0) "
             "until C09 replaces it; valeq is an uninterpreted equivalence; the induction over value trees is a meta-argument. Byte layouts are pinned by C01, at value level the frozen harnesses are the reference encoder.",
             TECH),
+    "C03": ("proof",
+            "Factory: for EVERY 16-bit code CreatePack returns nil exactly for unregistered codes and otherwise a fresh pack of the one registered concrete type whose GetPackType() is that code; every registered type's own tag selects its own type. "
+            "Both forms of the common header. Per pack / record type a round-trip harness derived from the AST of Write and frozen (hand edits marked): decode(encode(p)) consumes exactly, re-encodes to the identical token stream, "
+            "restores every carried field under the version bytes and presence flags Write uses. Containers through composite tokens: one inner pack is one token whose payload is the pack (WritePack/ReadPack contract = the per-type harnesses + factory); "
+            "CompositePack, ZipPack and LogSinkZipPack (with and without compression) return their inner packs unchanged, in order and stamped with the container's identity fields; record lists (StatError, SMDownCheck, TCP port records) likewise. Loops by invariants: any number of records.",
+            "DESIGN.md §4 C03, §10.4",
+            BASE_NOTE + " Token view of io assumed. gzip is a TRUSTED inverse pair (UnZip(DoZip(b)) has b's bytes). The type-tag framing inside WritePack/ReadPack is abstracted by the composite token (rests on the factory harness). "
+            "Not under contract (listed in lang/pack/zz_rt_verif.go with reasons): CounterPack1, the packs whose tables are hmap linked maps (EventPack, ParamPack, ExtensionPack, StatRemoteIpPack, StatUserAgentPack), ProcPerf/SMProcPerfPack, SMBasePack, "
+            "SMDiskPerfPack/SMNetPerfPack, SMLogEventPack, ServerInfoPack, SMExtension, ProfilePack; the raw-tag-bytes branch of TagCountPack/TagLogPack/LogSinkPack.Write; StatGeneralPack.writeTable; Stat*Pack.SetRecords over hmap enumerations. Four genuine deviations are known findings.",
+            TECH),
     "C04": ("proof",
             "No fabrication: every io Read* that returns normally consumed bytes that were present (postcondition of ReadBytes and of every reader built on it, byte-level contracts); "
             "strict-prefix harnesses: after decoding a strict prefix of a valid encoding the statement following the read is unreachable (the read panics) for int, long, decimal, blob, text, "
